@@ -387,6 +387,12 @@ impl MemSys
         self.with(|s| s.remove_tree(path));
     }
 
+    /// mv by the user: the node itself (content, modification time, permission) moves; the destination is replaced
+    pub fn user_move(&self, from : &str, to : &str)
+    {
+        self.with(|s| { if from != to { if let Some(n) = s.disk.files.remove(from) { s.disk.files.insert(to.to_string(), n); } } });
+    }
+
     pub fn user_set_exec(&self, path : &str, exec : bool)
     {
         self.with(|s| { if let Some(n) = s.disk.files.get_mut(path) { n.exec = exec; } });
